@@ -147,9 +147,26 @@ func main() {
 	}
 	pc := cs.Func("Store.ProposeCommand")
 	{
+		// trimmed = the result branch calls trimScanResponse(meta, req, result.resp) unconditionally,
+		// as a direct statement right before `return result.resp, nil` (a call nested in a condition
+		// trims only some commands), or the propose path refuses reads altogether
 		trimmed := false
 		if pc != nil {
-			trimmed = cs.HasCall(pc.Body, "trimScanResponse") || cs.HasCall(pc.Body, "isReadOnlyRequest")
+			ast.Inspect(pc.Body, func(x ast.Node) bool {
+				cc, ok := x.(*ast.CommClause)
+				if !ok {
+					return true
+				}
+				for i, st := range cc.Body {
+					if cs.Src(st) == "trimScanResponse(meta, req, result.resp)" && i+1 < len(cc.Body) && cs.Src(cc.Body[i+1]) == "return result.resp, nil" {
+						trimmed = true
+					}
+				}
+				return true
+			})
+			if !trimmed && !cs.HasCall(pc.Body, "trimScanResponse") && cs.HasStmt(pc.Body, "if !isReadOnlyRequest(req) { return nil, fmt.Errorf(\"raftstore: read command must be read-only\") }") {
+				trimmed = true
+			}
 		}
 		o.Set("cmd.proposeScanTrimmed", "raftstore/store/command_service.go:ProposeCommand", fmt.Sprint(trimmed), pc != nil, "true")
 	}
